@@ -125,7 +125,10 @@ def gen_public(rng, key):
     if op == "dinuc" and not (0 <= start < (end if end >= 0 else L) <= L):
         start, end = 0, -1        # dinucleotide_shuffle slices without validating: only in-range regions are driven
     n = 1 if rng.random() < 0.6 else rng.randint(2, 3)
-    return dict(op=op, A=A, x=x, start=start, end=end, n=n, seed=rng.randint(0, 10 ** 6), key=key, dt=rng.randrange(4))
+    seed = rng.randint(0, 10 ** 6)
+    if rng.random() < 0.25:      # "all seeds": also the edges of the 32-bit range (the jitted walk takes its seed as int32)
+        seed = rng.choice([2 ** 31 - 1 - rng.randint(0, 3), 2 ** 31 + rng.randint(0, 1000), 2 ** 32 - 1 - rng.randint(0, 50), 2 ** 31])
+    return dict(op=op, A=A, x=x, start=start, end=end, n=n, seed=seed, key=key, dt=rng.randrange(4))
 
 
 def handler(case):
